@@ -26,8 +26,9 @@ NoLetter == [page |-> 9, stop |-> 9, orbit |-> 9, trig |-> 9, fee |-> 9]
 Init == st = RunInit /\ hist = << >> /\ verd = << >> /\ before = RunInit /\ letter = NoLetter
 Next == /\ Len(hist) < MaxLen
         /\ \E l \in Letter :
-              /\ (Len(hist) = 0 => l.page = 0 /\ l.stop = 0)        \* the statement's scope: sequences that begin at an HBF start (pages 0 and 1)
-              /\ (Len(hist) = 1 => l.page = 1)
+              /\ (Len(hist) = 0 => l.page = 0 /\ l.stop = 0)        \* the statement's scope: sequences that begin at an HBF start; the SECOND header may carry any page
+                                                                    \* counter (it is checked against 1, and it is what the checker learns the increment from)
+              /\ (Len(hist) = 1 => l.page \in {1, 3})                    \* (as it should be, and not)
               /\ LET r == MkRdh(l) IN
                  /\ hist' = Append(hist, Patch(l))
                  /\ verd' = Append(verd, RunViolations(st, r) = {})
